@@ -100,7 +100,7 @@ extern const char *CANARY_PROP;         /* additionally reported under this prop
 
 /* ----------------------------------------------------------------- world */
 #define MAXCMD 320
-#define MAXGRP 8
+#define MAXGRP 16
 #define MAXVAR 8
 
 enum { K_RUN = 0, K_READ = 1, K_WRITE = 2, K_TEST = 3 };
@@ -126,6 +126,8 @@ struct world {
 extern struct world W;
 
 void w_begin(void);                                          /* drop previous world */
+extern unsigned POOL_PCT;                                    /* share of worlds whose group arrays are carved, back to back, from one backing array */
+extern const char *const LORE[]; extern const unsigned N_LORE; /* byte sequences with a meaning in terminal / modem practice (byte order marks, "A/", ";", "+++", telnet and ANSI sequences) */
 extern bool NEXT_WORLD_USE_MUTEX;                            /* the next world is initialised with the mock mutex interface */
 struct cat_command *w_group(size_t ncmd, bool disable);      /* returns the group's zeroed command array */
 void w_group_view(struct cat_command *arr, size_t ncmd, bool disable);   /* second registration of (a prefix of) another group's array */
@@ -182,6 +184,7 @@ extern void (*ON_PHASE)(int code);                       /* codes 0..4 from the 
 /* mutex mock */
 extern int MX_DEPTH; extern long MX_LOCKS, MX_UNLOCKS;
 extern long MX_FAIL_LOCK_AT, MX_FAIL_UNLOCK_AT;          /* -1: never; else fail the k-th call (0-based) */
+extern bool MX_FOREIGN_CALLER; extern long MX_FOREIGN_LOCKS;   /* set around an API call made "by another party" while the lock is held: mutex->lock fails for it (busy), nothing is counted in MX_LOCKS */
 extern void (*ON_LOCK)(bool is_lock, int result);
 extern void (*ON_LOCK_WAIT)(long k);                      /* entry of the k-th mutex->lock call, before the lock is granted */
 
@@ -234,6 +237,22 @@ long run_quiet(long maxsteps);      /* service until OK with all input consumed;
 long quiet_bound(void);
 void w_describe(FILE *f);
 void io_describe(FILE *f);
+
+/* private fields of struct cat_object are looked at only through these (structural invariants, coverage accounting, the one field excused in raw object
+ * comparisons); on a tree where probe_fields.c does not compile they are not looked at at all and the raw comparisons are skipped */
+#ifndef VERIF_NO_OBJECT_INVARIANTS
+#define OBJ_FIELDS 1
+#define OBJ_STATE() ((int)W.at->state)
+#define OBJ_USTATE() ((int)W.at->unsolicited_fsm.state)
+#define OBJ_UCOUNT() ((int)W.at->unsolicited_fsm.unsolicited_cmd_buffer_items_count)
+#define OBJ_EXCUSE_CURRENT_CHAR(b) ((b).current_char = W.at->current_char)
+#else
+#define OBJ_FIELDS 0
+#define OBJ_STATE() (-1000)
+#define OBJ_USTATE() (-1000)
+#define OBJ_UCOUNT() (-1000)
+#define OBJ_EXCUSE_CURRENT_CHAR(b) ((void)0)
+#endif
 
 /* service wrapper: counts steps, tracks FSM state coverage */
 cat_status svc(void);
